@@ -274,6 +274,11 @@ func buildMethodBSInfo(context *MethodDeclarationContext, bsInfo bs_domain.Funct
 		blcStatement := blockContext.(*BlockContext).AllBlockStatement()
 		for _, statement := range blcStatement {
 			if reflect.TypeOf(statement.GetChild(0)).String() == "*parser.StatementContext" {
+				// `switch (x) { case 1 -> ...; }` is a statement made of a switch expression (and an optional `;`)
+				if _, ok := statement.GetChild(0).(*StatementContext).GetChild(0).(*SwitchExpressionContext); ok {
+					bsInfo.SwitchSize = bsInfo.SwitchSize + 1
+					continue
+				}
 				if len(statement.GetChild(0).(*StatementContext).GetChildren()) < 3 {
 					continue
 				}
